@@ -9,6 +9,7 @@ from .terms import STD_DISCR
 
 MAX_ROUNDS = 80
 MAX_CHAIN = 6
+MAX_CHAIN_DECISION = 14     # switches on a private fieldless "decision" enum returned by an inlined helper
 
 
 def _pure(blk):
@@ -28,6 +29,45 @@ def _single_succ(blk):
     return None
 
 
+def _promoted_variant(body, o):
+    """constant operand `&Enum::Variant` promoted out of the function -> ('refvariant', adt, variant)"""
+    if 'promoted' not in o or not o.get('path'):
+        return None
+    pb = getattr(body.crate, 'promoted', {}).get((o['path'], o['promoted']))
+    if pb is None or len(pb.blocks) != 1:
+        return None
+    st = [s for s in pb.blocks[0]['stmts'] if s['k'] == 'assign']
+    if len(st) == 2 and st[0]['rv']['k'] == 'agg' and st[0]['rv'].get('ak') == 'adt' and not st[0]['place']['p'] and \
+            st[1]['rv']['k'] == 'ref' and st[1]['place'] == {'l': 0, 'p': []} and st[1]['rv']['place'] == {'l': st[0]['place']['l'], 'p': []}:
+        return ('refvariant', st[0]['rv']['path'], st[0]['rv']['variant'])
+    return None
+
+
+def _extra_rv(body, rv, known, op_val, adts):
+    """values the two propagators share beyond use/agg/discr/not: references to a local whose variant is known (and promoted
+    `&Enum::Variant` constants), the discriminant read through such a reference, comparisons of two known scalars"""
+    k = rv['k']
+    if k == 'ref' and rv.get('bk') not in ('mut',) and not rv['place']['p']:
+        kv = known.get(rv['place']['l'])
+        if kv and kv[0] == 'variant':
+            return ('refvariant', kv[1], kv[2])
+    if k == 'ref' and rv.get('bk') not in ('mut',) and len(rv['place']['p']) == 1 and rv['place']['p'][0][0] == 'deref':
+        kv = known.get(rv['place']['l'])
+        if kv and kv[0] == 'refvariant':
+            return kv           # reborrow `&*r`
+    if k == 'discr' and len(rv['place']['p']) == 1 and rv['place']['p'][0][0] == 'deref':
+        kv = known.get(rv['place']['l'])
+        if kv and kv[0] == 'refvariant':
+            d = _discr_of(kv[1], kv[2], adts)
+            if d is not None:
+                return ('int', d)
+    if k == 'bin' and rv.get('op') in ('Eq', 'Ne'):
+        a, b = op_val(rv['a']), op_val(rv['b'])
+        if a and b and a[0] == b[0] and a[0] in ('int', 'bool'):
+            return ('bool', (a[1] == b[1]) == (rv['op'] == 'Eq'))
+    return None
+
+
 def _resolve(body, chain_blocks, s_block, adts):
     """Walk statements of chain (first block .. switch block) forward, tracking known values of plain locals:
     returns the switch value (int as str / bool) if determined, else None."""
@@ -35,6 +75,9 @@ def _resolve(body, chain_blocks, s_block, adts):
 
     def op_val(o):
         if o.get('k') == 'const':
+            pv = _promoted_variant(body, o)
+            if pv is not None:
+                return pv
             v = o.get('val')
             if isinstance(v, bool):
                 return ('bool', v)
@@ -82,6 +125,8 @@ def _resolve(body, chain_blocks, s_block, adts):
                 k = op_val(rv['a'])
                 if k and k[0] == 'bool':
                     val = ('bool', not k[1])
+            if val is None:
+                val = _extra_rv(body, rv, known, op_val, adts)
             if val is None:
                 known.pop(pl['l'], None)
             else:
@@ -150,6 +195,9 @@ def fold_constants(body, adts):
 
     def op_val(o, known):
         if o.get('k') == 'const':
+            pv = _promoted_variant(body, o)
+            if pv is not None:
+                return pv
             v = o.get('val')
             if isinstance(v, bool):
                 return ('bool', v)
@@ -197,6 +245,8 @@ def fold_constants(body, adts):
                 k = op_val(rv['a'], known)
                 if k and k[0] == 'bool':
                     val = ('bool', not k[1])
+            if val is None:
+                val = _extra_rv(body, rv, known, lambda o_: op_val(o_, known), adts)
             if val is None or pl['l'] in noprop:
                 known.pop(pl['l'], None)
             else:
@@ -259,6 +309,21 @@ def fold_constants(body, adts):
     return nb
 
 
+def _decision_switch(body, s_bi, adts):
+    """does the switch in s_bi test the variant of a local whose type is a fieldless enum of this workspace?"""
+    blk = body.blocks[s_bi]
+    d = blk['term'].get('discr') or {}
+    if d.get('k') not in ('copy', 'move') or d['place']['p']:
+        return False
+    l = d['place']['l']
+    for s in blk['stmts']:
+        if s['k'] == 'assign' and not s['place']['p'] and s['place']['l'] == l and s['rv']['k'] == 'discr' and not s['rv']['place']['p']:
+            ty = body.locals[s['rv']['place']['l']]
+            a = adts.get(ty.split('<', 1)[0].strip())
+            return bool(a) and a['kind'] == 'Enum' and all(not v['fields'] for v in a['variants'])
+    return False
+
+
 def thread_jumps(body, adts=None):
     """Returns a new Body with determinable switch edges threaded (or the same body if nothing changed)."""
     if adts is None:
@@ -300,7 +365,7 @@ def thread_jumps(body, adts=None):
                             # several targets
                             plan = (p, ch, tgt)
                             break
-                        if len(chain) <= MAX_CHAIN:
+                        if len(chain) <= MAX_CHAIN or (len(chain) <= MAX_CHAIN_DECISION and _decision_switch(cur, s_bi, adts)):
                             stack.append(chain)
                     elif tp['k'] in ('call', 'drop', 'assert') and tp.get('target') == head and len(ch) <= MAX_CHAIN and len(preds[head]) > 1:
                         # value may be determined by statements of the chain blocks only (e.g. drop flags set in head)
